@@ -1,4 +1,4 @@
-HOOK_COMMITS = ["02bc05e", "18a3dee", "c34a517", "1653682"]
+HOOK_COMMITS = ["02bc05e", "18a3dee", "c34a517", "1653682", "8fdc782"]
 NOT_APPLICABLE = {}
 TEXT = {
  "C17": {
